@@ -510,7 +510,19 @@ def r5(ctx):
     U = {'ixmin': sp.Min(b1.fields['ixmin'], b2.fields['ixmin']), 'ixmax': sp.Max(b1.fields['ixmax'], b2.fields['ixmax']),
          'iymin': sp.Min(b1.fields['iymin'], b2.fields['iymin']), 'iymax': sp.Max(b1.fields['iymax'], b2.fields['iymax'])}
     bb = t.fields.get('bbox')
-    if not (isinstance(bb, Obj) and all(is_num(bb.fields.get(k)) and bb.fields[k] == U[k] for k in U)):
+    ok_box = isinstance(bb, Obj) and all(is_num(bb.fields.get(k)) and bb.fields[k] == U[k] for k in U)
+    if not ok_box and isinstance(bb, Obj):
+        # min/max may be spelled as conditionals: decide on every ordering of the operand boxes' limits
+        from ..ot import ev as ot_ev
+        from .c19 import _pairs, _val
+        xs, ys, X, Y = _pairs(b1, b2)
+        try:
+            ok_box = all(_val(ot_ev(bb, {**ax, **ay})) == (
+                'box', min(ax[xs[0]], ax[xs[2]]), max(ax[xs[1]], ax[xs[3]]), min(ay[ys[0]], ay[ys[2]]), max(ay[ys[1]], ay[ys[3]]))
+                for ax in X for ay in Y)
+        except (ValueError, KeyError, TypeError):
+            ok_box = False
+    if not ok_box:
         ctx.bad(construct, 'mask-box', f'compound mask box is {show(bb, 200)}, not the union box', f.loc())
         return
     data = t.fields.get('data')
@@ -527,10 +539,22 @@ def r5(ctx):
                     Tup((sp.Abs(b.fields['ixmin'] - U['ixmin']), sp.Abs(U['ixmax'] - b.fields['ixmax'])))))
         got = p.args[1] if len(p.args) > 1 else None
         src_ok = same(p.args[0], App('maskdata', (Obj('PixelRegion', {}, f'self.region{k + 1}', None),)))
-        good = isinstance(got, Tup) and len(got.items) == 2 and all(
-            isinstance(r, Tup) and len(r.items) == 2 for r in got.items) and all(
+        shaped = isinstance(got, Tup) and len(got.items) == 2 and all(
+            isinstance(r, Tup) and len(r.items) == 2 for r in got.items)
+        good = shaped and all(
             is_num(g) and sp.simplify(g - w) == 0 for gr, wr in zip(got.items, want.items)
             for g, w in zip(gr.items, wr.items))
+        if shaped and not good:
+            # the amounts may be spelled with conditionals: decide on every ordering of the operand boxes' limits
+            from ..ot import ev as ot_ev
+            from .c19 import _pairs
+            xs_, ys_, X_, Y_ = _pairs(b1, b2)
+            try:
+                good = all(int(ot_ev(g, {**ax, **ay})) == int(ot_ev(w, {**ax, **ay}))
+                           for ax in X_ for ay in Y_
+                           for gr, wr in zip(got.items, want.items) for g, w in zip(gr.items, wr.items))
+            except (ValueError, KeyError, TypeError):
+                good = False
         if not (good and src_ok):
             ok = False
             ctx.bad(construct, f'padding-operand{k + 1}',
